@@ -29,7 +29,7 @@ struct FakeConn : Connection {
 #endif
 // reference line editor
 struct Ref { char line[16]; int len; int cur; int hidx; };
-static const char *const HIST[] = {"h0", "hh1"};
+static const char *const HIST[] = {"hh1", "x"};        // oldest, newest (different lengths; the newest can be emptied with one backspace)
 static void ref_set(Ref &r, const char *s) { r.len = 0; while (s[r.len]) { r.line[r.len] = s[r.len]; r.len++; } r.cur = r.len; }
 extern "C" void h_editor() {
     FakeConn conn; Terminal::Impl term(nullptr);
@@ -40,7 +40,7 @@ extern "C" void h_editor() {
     for (int i = 0; i < nh; i++) s->history.push_back(HIST[i]);
     Ref r; r.len = 0; r.cur = 0; r.hidx = 0;
     for (int k = 0; k < NKEYS; k++) {
-        unsigned key = nondet_uchar(); VP_ASSUME(key <= 9);
+        unsigned key = nondet_uchar(); VP_ASSUME(key <= 10);
         std::string bytes;
         switch (key) {
         case 0: { char c = (char)('a' + k); bytes = std::string(1, c);          // a printable character (the editor logic does not depend on which)                        // printable: insert at cursor
@@ -53,6 +53,8 @@ extern "C" void h_editor() {
         case 6: bytes = "\x1b[4~"; r.cur = r.len; break;                                                                                      // end
         case 7: bytes = "\x1b[A"; if (r.hidx < nh) { r.hidx++; ref_set(r, HIST[nh - r.hidx]); } break;                                        // history up
         case 8: bytes = "\x1b[B"; if (r.hidx > 0) { r.hidx--; if (r.hidx > 0) ref_set(r, HIST[nh - r.hidx]); else { r.len = 0; r.cur = 0; } } break;   // history down
+        case 10: { char c = '!'; bytes = "!";                                     // '!' typed in front of text makes a history reference (usually one that fails: the line is then not stored)
+                  if (r.len < 15) { for (int i = r.len; i > r.cur; i--) r.line[i] = r.line[i - 1]; r.line[r.cur] = c; r.len++; r.cur++; } break; }
         default: bytes = "\t"; break;                                                                                                         // tab: no effect
         }
         VP_ASSERT(term.onRecvString(st, bytes), "key accepted");
@@ -68,6 +70,12 @@ extern "C" void h_editor() {
         bool is_history_cmd = (r.len >= 7 && r.line[0]=='h'&&r.line[1]=='i'&&r.line[2]=='s'&&r.line[3]=='t'&&r.line[4]=='o'&&r.line[5]=='r'&&r.line[6]=='y');
         if (!is_history_cmd && s->history.size() == h0 + 1) { const std::string &e = s->history.back(); VP_ASSERT((int)e.size() == r.len, "the stored line is the line the reference editor produced");
             for (int i = 0; i < r.len; i++) VP_ASSERT(e[i] == r.line[i], "the stored line is the line the reference editor produced"); }
+    }
+    // the next line starts from scratch whatever the Enter did (stored, not stored, failed reference): Up recalls the newest stored line
+    if (!s->history.empty()) {
+        std::string newest = s->history.back();
+        VP_ASSERT(term.onRecvString(st, "\x1b[A"), "key accepted");
+        VP_ASSERT(s->curr_input == newest, "after any Enter, history-up recalls the newest stored line (browsing restarts with every new line)");
     }
     VP_REACH("editor");
 }
